@@ -11,18 +11,23 @@ def obs_trace(cfg):
     code = lambda off: (jnp.arange(n, dtype=float)[:, None] * 10.0 + off) + jnp.arange(cols, dtype=float)[None, :] * 1000.0
     P = code(1.0) if cols > 1 else (code(1.0)[:, 0] if cfg["flat"] else code(1.0))
     V = code(2.0)
-    E = {"nu": jnp.arange(n, dtype=float) * 10.0 + 3.0 if cfg["flat"] else (jnp.arange(n, dtype=float) * 10.0 + 3.0)[:, None]}
+    E = {"nu": jnp.arange(n, dtype=float) * 10.0 + 3.0 if cfg["flat"] else (jnp.arange(n, dtype=float) * 10.0 + 3.0)[:, None],
+         "mu": jnp.arange(n, dtype=float) * 10.0 + 5.0 if cfg.get("flat2", cfg["flat"]) else (jnp.arange(n, dtype=float) * 10.0 + 5.0)[:, None]}        # a second observed parameter
     g = jinns.data.DataGeneratorObservations(jax.random.PRNGKey(cfg["seed"]), b, P, V, E)
     batches, stores = [], []
+    extra_fails = cfg.setdefault("_extra_fails", [])
     for _ in range(cfg["calls"]):
         g, bt = g.get_batch()
+        mu = np.asarray(bt["eq_params"]["mu"]).ravel().tolist(); nu = np.asarray(bt["eq_params"]["nu"]).ravel().tolist()
+        if any(not (m - q == 2.0) for m, q in zip(mu, nu)) or len(mu) != len(nu):
+            extra_fails.append(f"call {len(batches)}: the two observed parameters of a batch row come from different rows (nu {nu}, mu {mu})")
         batches.append((np.asarray(bt["pinn_in"]).tolist(), np.asarray(bt["val"]).tolist(), np.asarray(bt["eq_params"]["nu"]).tolist()))
         stores.append(np.asarray(g.indices).tolist())
     return batches, stores
 
 
 def obs_oracle(cfg, batches):
-    fails = []
+    fails = list(cfg.pop("_extra_fails", []))
     for k, (p, v, e) in enumerate(batches):
         if not (len(p) == len(v) == len(e) == cfg["b"]):
             fails.append(f"call {k}: batch parts have different lengths")
@@ -130,7 +135,7 @@ def generate(tier, seed, casedir, variant):
     nobs = 30 if tier == "quick" else 150
     for _ in range(nobs):
         n = rng.randint(1, 8); b = rng.randint(1, n)
-        cfg = dict(what="obs", n=n, b=b, cols=rng.choice([1, 1, 2]), flat=rng.random() < 0.3, calls=2 * (-(-n // b)) + 1, seed=rng.randrange(1 << 30))
+        cfg = dict(what="obs", n=n, b=b, cols=rng.choice([1, 1, 2]), flat=rng.random() < 0.4, flat2=rng.random() < 0.5, calls=2 * (-(-n // b)) + 1, seed=rng.randrange(1 << 30))
         if cfg["cols"] > 1:
             cfg["flat"] = False
         batches, stores = obs_trace(cfg)
